@@ -408,7 +408,7 @@ func pieces(d *RIDL) []piece {
 	return r.ps
 }
 
-var gapFillers = []string{"", " ", "\t", "\r\n", "\n", "\n\n", " # c\n", "#\n", "#c\n", "# c\n# d\n", "  \t "}
+var gapFillers = []string{"", " ", "\t", "\r\n", "\n", "\n\n", " # c\n", "#\n", "#c\n", "# c\n# d\n", "  \t ", "# :) ( [\n"}
 
 // fillerOK decides whether filler f may stand at a gap of the given class between prev and next token.
 func fillerOK(class byte, f string, prev, next string) bool {
@@ -489,7 +489,9 @@ func gapsOf(ps []piece) []gapInfo {
 
 // renderDocs renders with comment blocks above the interface keyword and above members.
 // blank selects what separates a block from the preceding line.
-func renderDocs(d *RIDL, indent string, crlf bool) string {
+// inner: when not empty, every gap inside a member (behind its keyword, name, brackets, ...) that admits it is
+// filled with it - the member then spreads over several lines, its documentation block still directly above.
+func renderDocs(d *RIDL, indent string, crlf bool, inner string) string {
 	nl := "\n"
 	if crlf {
 		nl = "\r\n"
@@ -511,7 +513,19 @@ func renderDocs(d *RIDL, indent string, crlf bool) string {
 		block(m.Doc)
 		one := RIDL{Name: "x.y", Members: []RMember{m}}
 		ps := pieces(&one)
-		txt := render(ps, nil)
+		lay := map[int]string{}
+		if inner != "" {
+			gs := gapsOf(ps)
+			for gi, g := range gs {
+				if g.prev == "" || g.prev == "interface" || g.prev == "x.y" || gi == len(gs)-1 {
+					continue
+				}
+				if fillerOK(g.class, inner, g.prev, g.next) {
+					lay[gi] = inner
+				}
+			}
+		}
+		txt := render(ps, lay)
 		txt = txt[strings.Index(txt, "\n")+1:]
 		sb.WriteString(indent + strings.TrimSuffix(txt, "\n") + nl)
 	}
